@@ -254,6 +254,17 @@ def run_table(env, res, seed):
             mon.violation('dimension', f'SI.{name} is not the canonical class for {M.vstr(v)}')
 
 
+    # names bound to a dimension that physics does not give them: reported, not a verdict (the property is about tracking, not naming)
+    for name, v in sorted(M.NAMED_SUSPECT.items()):
+        cls = getattr(SI, name, None)
+        if cls is not None:
+            try:
+                if env.vec_of_class(cls) != v:
+                    res.add('named_dimension_anomalies', f'SI.{name} is {cls.__name__}, physics says {M.vstr(v)}')
+            except Exception:
+                pass
+
+
 def run_extension(env, res, seed):
     """The extension scenario of the module docstring on the GLOBAL table, plus collisions (run last in a worker)."""
     import math
@@ -537,8 +548,6 @@ def run_unitpy_case(env, res, seed, index):
             mval, mvec = model.parse(s)
         except M.ModelInvalid:
             continue
-        if not (mval == mval and abs(mval) < 1e300 and (mval == 0 or abs(mval) > 1e-300)):
-            continue
         w = [t for t in __import__('re').findall('[A-Za-zα-ωΑ-Ω]+', s)]
         if any(t not in defs and t[1:] in defs and t in defs for t in w):
             pass
@@ -574,8 +583,6 @@ def run_unitpy_case(env, res, seed, index):
             tval, tvec = model.parse(t)
         except M.ModelInvalid:
             continue
-        if not (0 < abs(tval) < 1e300):
-            continue
         try:
             B = U[t]
         except Exception as e:
@@ -603,6 +610,9 @@ def run_unitpy_case(env, res, seed, index):
                 mon.violation('wrong unit accepted', f'{defs}: U[{t!r}]({s!r}) returned {float(b)!r}; dimensions {M.vstr(tvec)} vs {M.vstr(mvec)}')
             except ValueError:
                 res.count('unitpy_wrong_unit_rejected')
+            except Exception as e:
+                res.count('unitpy_wrong_unit_rejected')
+                res.add('rejected_other_exception_types', f'unit.py wrong unit: {type(e).__name__}')
     # unknown units are rejected
     for bad in ('2foo', '3' + 'q' + names[0], '1da' + names[0]):
         w = bad.lstrip('0123456789')
